@@ -5,7 +5,7 @@
 From Coq Require Import List NArith ZArith Bool Lia String.
 From Dec Require Import Bytes Strconv Crc Regex Values Tree Db Parser Interp CasesInterp.
 From Dec.generated Require Import Regexes.
-From Dec.proofs Require Import InterpFacts InterpFacts2 InterpFacts3 FollowCore FollowInv FollowErr FollowFail RuleFacts ParserBalanced.
+From Dec.proofs Require Import InterpFacts InterpFacts2 InterpFacts3 FollowCore FollowInv FollowErr FollowFail RuleFacts IndepFacts ParserBalanced.
 Import ListNotations.
 
 Definition enl : string := String (Ascii.ascii_of_nat 10) EmptyString.
@@ -74,3 +74,38 @@ Proof.
   cbv zeta. split; [unfold core_eq; vm_compute; repeat split|].
   split; vm_compute; reflexivity.
 Qed.
+
+(* C02, program level: `obj.Id = "lit"; obj.Status = jso.n` meets the premises
+   of independent_rules_any_order; both orders give the same object, each field
+   holding what its rule alone writes *)
+Definition e_two : bytes := bs ("obj.Id = ""lit""" ++ enl ++ "obj.Status = jso.n" ++ enl).
+Definition e_two_tree : list node := fst (parse_pure enames e_two).
+Definition e_r1 : node := nth 0 e_two_tree node0.
+Definition e_r2 : node := nth 1 e_two_tree node0.
+Definition e_block : list (node * (bytes * fval)) :=
+  [(e_r1, (bs "Id", FStr (bs "lit"))); (e_r2, (bs "Status", FInt 64 42))].
+
+Example e_block_is_independent :
+  St 0 (bufLC e_ctx) (vars e_ctx) e_ctx e_obj /\
+  block_writes (bs "obj") (bs "jso") e_doc (bufLC e_ctx) e_obj e_block /\
+  map fst e_block = e_two_tree.
+Proof.
+  split; [unfold St; vm_compute; repeat split|].
+  split; [|vm_compute; reflexivity].
+  split.
+  - constructor; [|constructor; [|constructor]].
+    + split; [vm_compute; reflexivity|]. exists (VBytes (bs "lit")), (FStr []).
+      split; [unfold rule_src; split; [reflexivity|]; split; [reflexivity|]; split; [reflexivity|]; left; split; reflexivity|].
+      split; [vm_compute; reflexivity|].
+      intros cc E. rewrite (assign_counters cc e_ctx _ _ E). vm_compute. reflexivity.
+    + split; [vm_compute; reflexivity|]. exists (VNode (jget e_doc [bs "n"])), (FInt 64 0).
+      split; [unfold rule_src; split; [reflexivity|]; split; [reflexivity|]; split; [reflexivity|]; right; split; [reflexivity|]; split; [reflexivity|]; split; [reflexivity|]; exists [bs "n"]; split; vm_compute; reflexivity|].
+      split; [vm_compute; reflexivity|].
+      intros cc E. rewrite (assign_counters cc e_ctx _ _ E). vm_compute. reflexivity.
+  - vm_compute. constructor; [|constructor; [|constructor]]; simpl; intuition discriminate.
+Qed.
+
+Example e_both_orders :
+  store (fst (decode (testU None) 50 e_two_tree e_ctx)) = [Obj [(bs "Id", FStr (bs "lit")); (bs "Status", FInt 64 42)] [] []] /\
+  store (fst (decode (testU None) 50 (rev e_two_tree) e_ctx)) = store (fst (decode (testU None) 50 e_two_tree e_ctx)).
+Proof. split; vm_compute; reflexivity. Qed.
